@@ -161,7 +161,9 @@ func TestC09Keys(t *testing.T) {
 		}
 	}
 	hevals := 0
-	for n := 0; n < 40 && len(well) > 0; n++ {
+	nh := 40
+	fmt.Sscanf(os.Getenv("VERIF_N"), "%d", &nh)
+	for n := 0; n < nh && len(well) > 0; n++ {
 		fa, fb := well[rng.Intn(len(well))], well[rng.Intn(len(well))]
 		os.WriteFile("cache/alice.authorized_keys", c09Render(fa.File, keys, true, rng), 0644)
 		os.WriteFile("cache/bob.authorized_keys", c09Render(fb.File, keys, true, rng), 0644)
